@@ -86,13 +86,30 @@ int next_backend_desc = 0;
  * @returns pointer to a registered liberasurecode instance
  * The caller must hold active_instances_rwlock
  */
-ec_backend_t liberasurecode_backend_instance_get_by_desc(int desc)
+static ec_backend_t liberasurecode_backend_instance_lookup(int desc)
 {
     struct ec_backend *b = NULL;
     SLIST_FOREACH(b, &active_instances, link) {
         if (b->idesc == desc)
             break;
     }
+    return b;
+}
+
+/**
+ * Look up a backend instance by descriptor
+ *
+ * Takes active_instances_rwlock (shared) for the duration of the lookup.
+ *
+ * @returns pointer to a registered liberasurecode instance
+ */
+ec_backend_t liberasurecode_backend_instance_get_by_desc(int desc)
+{
+    struct ec_backend *b = NULL;
+    if (rwlock_rdlock(&active_instances_rwlock) != 0)
+        return NULL;
+    b = liberasurecode_backend_instance_lookup(desc);
+    rwlock_unlock(&active_instances_rwlock);
     return b;
 }
 
@@ -107,7 +124,7 @@ int liberasurecode_backend_alloc_desc(void)
     for (;;) {
         if (++next_backend_desc <= 0)
             next_backend_desc = 1;
-        if (!liberasurecode_backend_instance_get_by_desc(next_backend_desc))
+        if (!liberasurecode_backend_instance_lookup(next_backend_desc))
             return next_backend_desc;
     }
 }
